@@ -16,10 +16,14 @@ PROP = {
             "saved again (bytes compared), and every call expression of the case is evaluated on the original and on both reloaded states "
             "(output, value, error, panic kind compared); SaveGlobals is repeated with the case's MaxValueLen; a child process whose working "
             "directory is a scratch directory under work/ runs the real save(\"c14\") / load(\"c14\") and repl.AutoSave / repl.AutoLoad on the "
-            "same definitions and its files and reloaded states are compared with the in-process ones. Families: every scalar of a pool "
+            "same definitions and its files and reloaded states are compared with the in-process ones; in every case the child's session then goes on "
+            "(every other user global deleted, the others set to 1) and is saved a SECOND time over the same files (save(\"c14\") and AutoSave): file bytes = "
+            "SaveGlobals' own bytes, load()/AutoLoad into fresh states = evaluating those bytes in-process, no temporary file left. Families: every scalar of a pool "
             "(16 ints incl. both int64 extremes, 28 floats incl. integral values, -0.0, subnormals, 1e308, +-Inf, NaN, 0.1, 1e21, 1e-7, 2^53, +-2^63) "
             "alone, in an array, as map key and as map value; each of the 256 one-byte strings alone and all together, the 256-byte string "
-            "(also as element, key and value), 14 runes (multi-byte, non-printable, U+2028, BOM, U+FFFD, U+E0001), raw newlines; 22 hand-written "
+            "(also as element, key and value), 14 runes (multi-byte, non-printable, U+2028, BOM, U+FFFD, U+E0001), raw newlines; invalid UTF-8 that comes from no escape: each byte 0x80-0xff RAW in a "
+            "source literal, the raw 255-byte string (alone, as element, key and value), backtick strings, every slice of \"h<rune>\" cutting a character "
+            "(alone, in arrays, as map key/value, glued with +), a function body with raw bytes; 22 hand-written "
             "function cases (named, lambda, parentheses, variadic, recursion, self, closures, nested definitions, comments, functions in arrays, aliases); "
             "constants and names shadowing pre-seeded identifiers (abs, Inf, NaN, printf, ...), del of pre-seeded identifiers; MaxValueLen 1..40 on "
             "a fixed environment; values printed on more than 64 KiB; 300 (quick) / 6000 (thorough) random data environments of 1-10 bindings "
